@@ -2486,6 +2486,290 @@ def _difference_reported(ctx, f, cfg, is_supplied, is_declared) -> Optional[ast.
     return None
 
 
+class _KeyFlow:
+    """Does a dict handed on by a function still contain every key of the dict it received?  `origin(name, defnode)` says which
+    definition is the received dict.  classify() -> 'keeps' | 'fresh' (unrelated to the received dict) | ('drops', why, node);
+    anything that involves the received dict in a form that is not understood raises AnalysisError."""
+
+    def __init__(self, ctx, rid, fv, origin):
+        self.ctx, self.rid, self.f, self.origin = ctx, rid, fv, origin
+        self.rd = ctx.rd(fv)
+        self.cfg = ctx.cfg(fv)
+        self._busy = set()
+
+    def name_at(self, name: str, st):
+        """combined verdict over every definition of `name` reaching statement `st`"""
+        key = (name, id(st))
+        if key in self._busy:
+            return "keeps"          # loop-carried self reference: decided by the other definitions
+        self._busy.add(key)
+        try:
+            from engine.dataflow import assigned_value
+            verdicts = []
+            for d in self.rd.defs_reaching_at(st, name):
+                if self.origin(name, d):
+                    verdicts.append("keeps")
+                elif isinstance(d, (ast.Assign, ast.AnnAssign)) and assigned_value(d, name) is not None:
+                    v = self.classify(assigned_value(d, name), d)
+                    if v == "fresh" and not self._guarded_by_absence(d):
+                        v = "unrelated"
+                    verdicts.append(v)
+                elif isinstance(d, ast.arguments):
+                    verdicts.append("unrelated")
+                else:
+                    verdicts.append("opaque")
+            return self._combine(verdicts)
+        finally:
+            self._busy.discard(key)
+
+    @staticmethod
+    def _combine(vs):
+        for v in vs:
+            if isinstance(v, tuple):
+                return v
+        if "keeps" in vs:
+            return "keeps" if all(v in ("keeps", "fresh") for v in vs) else "mixed"
+        if vs and all(v == "fresh" for v in vs):
+            return "fresh"
+        return "unrelated" if vs and all(v in ("unrelated", "fresh") for v in vs) else ("opaque" if vs else "unrelated")
+
+    def is_src(self, e, st) -> bool:
+        return isinstance(e, ast.Name) and isinstance(e.ctx, ast.Load) and self.name_at(e.id, st) == "keeps"
+
+    def mentions_src(self, e, st) -> bool:
+        return any(isinstance(x, ast.Name) and isinstance(x.ctx, ast.Load) and self.name_at(x.id, st) in ("keeps", "mixed") for x in ast.walk(e))
+
+    def _guarded_by_absence(self, d) -> bool:
+        """`x = {}` only replaces a dict that was not supplied: `if x is None:` / `if not x:`"""
+        for a in ancestors(d):
+            if isinstance(a, ast.If) and any(contains(b, d) or b is d for b in a.body):
+                e, neg = _strip_not(a.test)
+                if neg and self.is_src(e, a):
+                    return True
+                if isinstance(e, ast.Compare) and len(e.ops) == 1 and isinstance(e.ops[0], (ast.Is, ast.Eq)) and not neg \
+                        and isinstance(e.comparators[0], ast.Constant) and e.comparators[0].value is None and self.is_src(e.left, a):
+                    return True
+        return False
+
+    def classify(self, v, st):
+        src = lambda e: self.is_src(e, st)
+        if isinstance(v, ast.Name):
+            r = self.name_at(v.id, st)
+            if r in ("keeps", "fresh") or isinstance(r, tuple):
+                return r
+            return "fresh" if r in ("unrelated", "opaque") else self._unknown(v, st)
+        if (isinstance(v, ast.Dict) and not v.keys) or (isinstance(v, ast.Call) and isinstance(v.func, ast.Name) and v.func.id == "dict"
+                                                       and not v.args and not v.keywords):
+            return "fresh"
+        if isinstance(v, ast.BoolOp) and isinstance(v.op, ast.Or):
+            parts = [self.classify(x, st) for x in v.values]
+            return self._combine_expr(parts, v, st)
+        if isinstance(v, ast.IfExp):
+            return self._combine_expr([self.classify(v.body, st), self.classify(v.orelse, st)], v, st)
+        if isinstance(v, ast.Call):
+            fn = v.func
+            nm = fn.id if isinstance(fn, ast.Name) else (fn.attr if isinstance(fn, ast.Attribute) else None)
+            if nm in ("dict", "copy", "deepcopy", "OrderedDict") and len(v.args) == 1 and src(v.args[0]) and all(k.arg is not None for k in v.keywords):
+                return "keeps"
+            if nm == "dict" and any(k.arg is None and src(k.value) for k in v.keywords):
+                return "keeps"
+            if nm == "copy" and isinstance(fn, ast.Attribute) and not v.args and src(fn.value):
+                return "keeps"
+        if isinstance(v, ast.Dict) and any(k is None and src(x) for k, x in zip(v.keys, v.values)):
+            return "keeps"
+        if isinstance(v, ast.BinOp) and isinstance(v.op, ast.BitOr) and (src(v.left) or src(v.right)):
+            return "keeps"
+        if isinstance(v, ast.DictComp) and len(v.generators) == 1:
+            g = v.generators[0]
+            base, pairs = _iter_base(g.iter)
+            if src(base):
+                k = g.target.elts[0] if pairs and isinstance(g.target, (ast.Tuple, ast.List)) and g.target.elts else g.target
+                if not (isinstance(k, ast.Name) and isinstance(v.key, ast.Name) and v.key.id == k.id):
+                    return self._unknown(v, st)
+                if not g.ifs:
+                    return "keeps"
+                if all(isinstance(c, ast.Compare) and len(c.ops) == 1 and isinstance(c.ops[0], (ast.In, ast.NotIn)) for c in g.ifs):
+                    return ("drops", f"the comprehension keeps only the supplied keys that pass `{ast.unparse(g.ifs[0])}`", v)
+                return self._unknown(v, st)
+            if isinstance(base, ast.BinOp) and isinstance(base.op, ast.BitAnd) and self.mentions_src(base, st):
+                return ("drops", f"the comprehension runs over the intersection `{ast.unparse(base)}`", v)
+            if self.mentions_src(v, st):
+                return ("drops", f"the dict is rebuilt from the keys of `{ast.unparse(base)}` and only looks the supplied entries up "
+                                 f"(`{norm(v.value, 50)}`)", v)
+            return "fresh"
+        if not self.mentions_src(v, st):
+            return "fresh"
+        return self._unknown(v, st)
+
+    def _combine_expr(self, parts, v, st):
+        for p_ in parts:
+            if isinstance(p_, tuple):
+                return p_
+        if "keeps" in parts and all(p_ in ("keeps", "fresh") for p_ in parts):
+            return "keeps"
+        if all(p_ == "fresh" for p_ in parts):
+            return "fresh"
+        return self._unknown(v, st)
+
+    def _unknown(self, v, st):
+        raise AnalysisError(f"{self.rid}: {self.f.qual}: the supplied value dict is passed on through `{norm(v, 80)}`, a form that is not "
+                            f"recognised; cannot decide whether every supplied key survives")
+
+    def removals(self):
+        """[(statement, key expression)] that delete entries from the received dict"""
+        out = []
+        for st in self.cfg.stmts():
+            if isinstance(st, ast.Delete):
+                for t in st.targets:
+                    if isinstance(t, ast.Subscript) and self.is_src(t.value, st):
+                        out.append((st, t.slice))
+            elif not isinstance(st, (ast.If, ast.For, ast.While, ast.Try, ast.With)):
+                for c in _calls_of_stmt(st):
+                    if isinstance(c.func, ast.Attribute) and c.func.attr in ("pop", "popitem", "clear") and self.is_src(c.func.value, st):
+                        out.append((st, c.args[0] if c.args else None))
+        return out
+
+
+def _r8_keys_survive(ctx, rid, f0, fv, flow: "_KeyFlow", sinks, what: str, label: str):
+    """One obligation: every expression in `sinks` = [(expr, stmt)] hands on a dict that keeps every supplied key, and no entry is
+    deleted from it on the way."""
+    for st, kexpr in flow.removals():
+        guard = None
+        for a in ancestors(st):
+            if isinstance(a, ast.If):
+                e, neg = _strip_not(a.test)
+                if isinstance(e, ast.Compare) and len(e.ops) == 1 and isinstance(e.ops[0], (ast.In, ast.NotIn)) and isinstance(kexpr, ast.Name) \
+                        and isinstance(e.left, ast.Name) and e.left.id == kexpr.id:
+                    guard = a
+                    break
+        if guard is not None and not any(isinstance(x, ast.Raise) or (isinstance(x, ast.stmt) and _is_warn(ctx, fv, x))
+                                         for b in guard.body + guard.orelse for x in ast.walk(b)):
+            ctx.violation(rid, f0, st, f"{what}: `{norm(st, 60)}` removes a supplied entry under the test `{ast.unparse(guard.test)}` without a raise or "
+                                       f"warning: a value addressed to a variable that does not exist is dropped before the consumer that would "
+                                       f"report it (KeyError in the node IR) sees it", label=label)
+            return
+        raise AnalysisError(f"{rid}: {fv.qual}: `{norm(st, 80)}` removes entries from the supplied value dict (unrecognised form)")
+    verdicts = []
+    for e, st in sinks:
+        verdicts.append(flow.classify(e, st))
+    bad = [v for v in verdicts if isinstance(v, tuple)]
+    if bad:
+        _, why, node = bad[0]
+        ctx.violation(rid, f0, stmt_of_any(node) if getattr(node, "_parent", None) is not None else f0.node,
+                      f"{what}: {why}; supplied keys that are not declared names disappear here without a raise or warning, so a node-level "
+                      f"value addressed to a variable that does not exist never reaches the consumer that reports it (KeyError in "
+                      f"VectorizedOperatorGraph) and is dropped silently", {"expression": norm(node, 120)}, label=label)
+    elif verdicts and all(v == "keeps" for v in verdicts):
+        ctx.ok(rid, f0, f0.node, f"{what}: every supplied key is handed on (entries are only added)", label=label)
+    else:
+        raise AnalysisError(f"{rid}: {fv.qual}: {what}: the dict handed on is not recognisably the supplied one ({verdicts})")
+
+
+def _r8_upstream(ctx, rid):
+    """The value dict on its way from the caller to the key-examining consumers: OperatorTemplate.apply hands its `values` back,
+    OperatorGraphTemplate.apply stores what it got back under the operator key and passes the collection to the IR constructor."""
+    from engine.inline import inlined
+    from engine.dataflow import assigned_value
+    # ---- OperatorTemplate.apply: parameter -> returned tuple
+    f0, fv = _operator_apply_view(ctx)
+    cfg = ctx.cfg(fv)
+    rets = [st for st in cfg.stmts() if isinstance(st, ast.Return) and st.value is not None]
+    ctx.require(rets, f"{rid}: {f0.qual} returns nothing")
+    params = [p for p in fv.params if p != fv.self_name]
+    position = None
+    for P in params:
+        flow = _KeyFlow(ctx, rid, fv, lambda name, d, P=P: name == P and isinstance(d, ast.arguments))
+        pos_sets = []
+        for r in rets:
+            elts = r.value.elts if isinstance(r.value, ast.Tuple) else [r.value]
+            # conditional expression selecting between two tuples
+            if isinstance(r.value, ast.IfExp) and isinstance(r.value.body, ast.Tuple) and isinstance(r.value.orelse, ast.Tuple):
+                elts = None
+                cands = [r.value.body.elts, r.value.orelse.elts]
+            else:
+                cands = [elts]
+            for el in cands:
+                pos_sets.append({i for i, e in enumerate(el) if isinstance(e, ast.Name)
+                                 and (e.id == P or flow.name_at(e.id, r) in ("keeps", "mixed") or isinstance(flow.name_at(e.id, r), tuple))})
+        common = set.intersection(*pos_sets) if pos_sets else set()
+        if len(common) == 1 and _default_is_none_or_dict(fv, P):
+            position = common.pop()
+            sinks = []
+            for r in rets:
+                tuples = [r.value.body, r.value.orelse] if isinstance(r.value, ast.IfExp) else [r.value]
+                for t in tuples:
+                    el = t.elts if isinstance(t, ast.Tuple) else [t]
+                    sinks.append((el[position], r))
+            _r8_keys_survive(ctx, rid, f0, fv, flow, sinks, f"{f0.qualname} hands the supplied `{P}` back to its caller",
+                             "supplied value keys survive to the returned dict")
+            break
+    if position is None:
+        raise AnalysisError(f"{rid}: {f0.qual}: no dict parameter is recognisably handed back in the returned tuple")
+    # ---- OperatorGraphTemplate.apply: what came back is stored and passed to the IR
+    g0 = ctx.repo.get_func(OPGRAPH_T, "OperatorGraphTemplate.apply")
+    gv = inlined(ctx, g0)
+    if not getattr(gv, "inlined_helpers", None):
+        gv = g0
+    gcfg = ctx.cfg(gv)
+    label2 = "returned value keys survive to the IR constructor"
+    what2 = f"{g0.qualname} passes the values returned by {f0.qualname} on to the IR constructor"
+    tcall = _target_ir_call(ctx, rid, gv)
+    coll = _arg(tcall, 99, "values")
+    if not isinstance(coll, ast.Name):
+        raise AnalysisError(f"{rid}: {gv.qual}: target_ir is not handed a local `values=` collection")
+    calls = _calls_to(ctx, gv, f0)
+    ctx.require(calls, f"{rid}: {g0.qual} no longer calls {f0.qualname} (anchor vanished)")
+    unpack, gathered = [], set()
+    for c in calls:
+        st = stmt_of(gcfg, c)
+        if isinstance(st, ast.Assign) and st.value is c and len(st.targets) == 1 and isinstance(st.targets[0], (ast.Tuple, ast.List)) \
+                and len(st.targets[0].elts) > position and isinstance(st.targets[0].elts[position], ast.Name):
+            unpack.append((st, st.targets[0].elts[position].id))
+        elif isinstance(st, ast.Expr) and isinstance(st.value, ast.Call) and call_name(st.value) == "append" and st.value.args \
+                and st.value.args[0] is c and isinstance(st.value.func.value, ast.Name):
+            gathered.add(st.value.func.value.id)          # the result tuples are collected in a list first
+        else:
+            raise AnalysisError(f"{rid}: {gv.qual}: the result of {f0.qualname} is neither unpacked into locals nor collected in a list "
+                                f"(`{norm(st, 80)}`)")
+    if gathered and not unpack:
+        # collection built afterwards: {key: op_values for _, op_values, key in results}
+        v = single_def_value(ctx, gv, coll)
+        ok_form = False
+        if len(gathered) == 1 and isinstance(v, ast.DictComp) and len(v.generators) == 1 and not v.generators[0].ifs:
+            g = v.generators[0]
+            L = next(iter(gathered))
+            others = [x for x in walk_shallow(gv.node) if isinstance(x, ast.Name) and x.id == L and isinstance(x.ctx, ast.Load)
+                      and not (isinstance(parent(x), ast.Attribute) and parent(x).attr == "append") and not contains(g.iter, x) and x is not g.iter]
+            comps_only = all(any(isinstance(a, (ast.DictComp, ast.ListComp, ast.SetComp, ast.GeneratorExp)) for a in ancestors(x)) for x in others)
+            if isinstance(g.iter, ast.Name) and g.iter.id == L and isinstance(g.target, (ast.Tuple, ast.List)) and len(g.target.elts) > position \
+                    and isinstance(g.target.elts[position], ast.Name) and isinstance(v.value, ast.Name) \
+                    and v.value.id == g.target.elts[position].id and len(_stores(gv, L)) == 1 and comps_only:
+                ok_form = True
+        if ok_form:
+            ctx.ok(rid, g0, g0.node, f"{what2}: every returned dict is handed on unchanged", label=label2)
+            return
+        if isinstance(v, ast.DictComp) and isinstance(v.value, ast.DictComp):
+            ctx.violation(rid, g0, stmt_of_any(v), f"{what2}: the returned dicts are rebuilt entry by entry (`{norm(v.value, 80)}`); supplied keys can "
+                                                   f"disappear here without a raise or warning", label=label2)
+            return
+        raise AnalysisError(f"{rid}: {gv.qual}: `{coll.id}` is built from the collected results in a form that is not recognised")
+    if gathered:
+        raise AnalysisError(f"{rid}: {gv.qual}: the results of {f0.qualname} are handled in two different ways (unrecognised form)")
+    stores = [st for st in gcfg.stmts() if isinstance(st, ast.Assign) and len(st.targets) == 1 and isinstance(st.targets[0], ast.Subscript)
+              and isinstance(st.targets[0].value, ast.Name) and st.targets[0].value.id == coll.id]
+    if not stores:
+        raise AnalysisError(f"{rid}: {gv.qual}: `{coll.id}` is not filled by item assignment (unrecognised form)")
+    names = {nm for _, nm in unpack}
+    sts = {id(st) for st, _ in unpack}
+    flow = _KeyFlow(ctx, rid, gv, lambda name, d: name in names and id(d) in sts)
+    _r8_keys_survive(ctx, rid, g0, gv, flow, [(st.value, st) for st in stores], what2, label2)
+
+
+def _default_is_none_or_dict(f, pname: str) -> bool:
+    d = _param_default(f, pname)
+    return d is None or (isinstance(d, ast.Constant) and d.value is None) or isinstance(d, ast.Dict)
+
+
 def r8_supplied_keys_examined(ctx, rid):
     n = 0
     from engine.inline import inlined
@@ -2571,6 +2855,7 @@ def r8_supplied_keys_examined(ctx, rid):
             L = other[0][0]
             raise AnalysisError(f"{rid}: {f.qual}: `{norm(L, 80)}` pairs supplied values with declared variables in a form that is not recognised; "
                                 f"cannot decide whether unknown keys are reported")
+    _r8_upstream(ctx, rid)
     ctx.require(n >= 1, f"{rid}: no method pairing a supplied value dict with the declared variables found in {OPGRAPH_IR} (anchor vanished)")
 
 
@@ -2582,5 +2867,5 @@ RULES = [
     ("C20-R5", r5_raised_not_built, 8),
     ("C20-R6", r6_remaining_guards, 7),
     ("C20-R7", r7_history_fed_or_refused, 3),
-    ("C20-R8", r8_supplied_keys_examined, 2),
+    ("C20-R8", r8_supplied_keys_examined, 4),
 ]
